@@ -117,9 +117,17 @@ class Server(utils.EventEmitter):
                 channel.connection.handle,
                 channel.source_cid,
             )
-            channel.sink = lambda pdu: self.on_gatt_pdu(
-                channel, att.ATT_PDU.from_bytes(pdu)
-            )
+
+            def on_pdu(pdu: bytes) -> None:
+                try:
+                    att_pdu = att.ATT_PDU.from_bytes(pdu)
+                except Exception as error:
+                    logger.warning('malformed ATT PDU [%s]: %s', pdu.hex(), error)
+                    self.on_malformed_gatt_pdu(channel, pdu)
+                    return
+                self.on_gatt_pdu(channel, att_pdu)
+
+            channel.sink = on_pdu
 
         return self.device.create_l2cap_server(
             spec or l2cap.LeCreditBasedChannelSpec(psm=att.EATT_PSM), handler=on_channel
@@ -563,6 +571,22 @@ class Server(utils.EventEmitter):
         self.subscribers.pop(bearer, None)
         self.indication_semaphores.pop(bearer, None)
         self.pending_confirmations.pop(bearer, None)
+
+    def on_malformed_gatt_pdu(self, bearer: att.Bearer, pdu: bytes) -> None:
+        '''
+        Called with the bytes of a PDU that could not be parsed.
+        A request still needs a response, or the client waits until it times out.
+        See Bluetooth spec Vol 3, Part F - 3.4.1.1 Error Response (Invalid PDU).
+        '''
+        if pdu and pdu[0] in att.ATT_REQUESTS:
+            self.send_response(
+                bearer,
+                att.ATT_Error_Response(
+                    request_opcode_in_error=pdu[0],
+                    attribute_handle_in_error=0x0000,
+                    error_code=att.ATT_INVALID_PDU_ERROR,
+                ),
+            )
 
     def on_gatt_pdu(self, bearer: att.Bearer, att_pdu: att.ATT_PDU) -> None:
         logger.debug(f'GATT Request to server: {_bearer_id(bearer)} {att_pdu}')
